@@ -1,5 +1,9 @@
 #!/bin/bash
-# Run once after a fresh restore (offline): builds the Lean model, theorems and the model driver.
+# Run once after a fresh restore (offline): regenerates the option tables from /repo, builds the Lean model, every property's
+# theorem file and the model driver. Later checks rebuild only what changed.
 set -e
-cd "$(dirname "$0")/lean"
-lake build PatchModel modeldriver 2>&1 | tail -3
+cd "$(dirname "$0")"
+python3 tools/gen_tables.py
+cd lean
+mods=$(ls PatchModel/Props/*.lean | sed 's#/#.#g; s#\.lean$##')
+lake build PatchModel modeldriver $mods 2>&1 | tail -3
